@@ -198,7 +198,7 @@ def gen_guess(r, target, s, N, cfg):
         ncol = N
     if ncol == rows:  # shape would be ambiguous with rows x 1 repeated
         return ["num", rnum(r)]
-    as_ = pick(r, ["np", "dm", "list"] if rows > 1 else ["np", "dm"])
+    as_ = pick(r, ["np", "dm"])
     if rows == 1 and as_ == "np" and r.random() < 0.5:
         return ["arr", [rnum(r) for _ in range(ncol)], "np"]  # 1-D numpy (auto-transposed)
     return ["arr", [[rnum(r) for _ in range(ncol)] for _ in range(rows)], as_]
@@ -381,6 +381,8 @@ def gen_objectives(r, sp, cfg, n):
     gvar = [["s", v] for v in sp.names("variable") if sp.sym(v).get("grid", "") == ""]
     for i in range(n):
         kinds = [(3, "int"), (2, "tf"), (1, "sum")]
+        if sp.nxt:  # discrete-time model: no integrals
+            kinds = [(2, "tf"), (3, "sum")]
         if sp.T[0] == "free":
             kinds.append((2, "T"))
         if gvar:
